@@ -498,7 +498,7 @@ typedef struct
         uint8_t                 arg_data[0];    /* warning: must have same offset as in CNF message */
 } VBIPROXY_CHN_IOCTL_REQ;
 
-#define VBIPROXY_CHN_IOCTL_REQ_SIZE(SIZE) (sizeof(VBIPROXY_CHN_IOCTL_REQ) + (SIZE) - 1)
+#define VBIPROXY_CHN_IOCTL_REQ_SIZE(SIZE) (sizeof(VBIPROXY_CHN_IOCTL_REQ) + (SIZE))
 
 typedef struct
 {
@@ -509,7 +509,7 @@ typedef struct
         uint8_t                 arg_data[0];
 } VBIPROXY_CHN_IOCTL_CNF;
 
-#define VBIPROXY_CHN_IOCTL_CNF_SIZE(SIZE) (sizeof(VBIPROXY_CHN_IOCTL_CNF) + (SIZE) - 1)
+#define VBIPROXY_CHN_IOCTL_CNF_SIZE(SIZE) (sizeof(VBIPROXY_CHN_IOCTL_CNF) + (SIZE))
 
 typedef struct
 {
